@@ -1021,6 +1021,29 @@ impl HnswBackend {
         let data_dir = data_dir.as_ref().to_path_buf();
         std::fs::create_dir_all(&data_dir).context("Failed to create data directory")?;
 
+        // Refuse to initialise a fresh store over existing data. Without a MANIFEST (e.g. it was
+        // deleted) the snapshots and WAL segments in this directory are not recovered by this code
+        // path, and writing a new MANIFEST would silently orphan them. A WAL file holding at most
+        // its 4-byte header is the residue of an interrupted first start-up and is harmless.
+        if !data_dir.join("MANIFEST").exists() {
+            for entry in std::fs::read_dir(&data_dir).context("Failed to list data directory")? {
+                let entry = entry.context("Failed to read data directory entry")?;
+                let name = entry.file_name().to_string_lossy().into_owned();
+                let is_snapshot = name.starts_with("snapshot_") && name.ends_with(".snap");
+                let is_nonempty_wal = name.starts_with("wal_")
+                    && name.ends_with(".wal")
+                    && entry.metadata().map(|m| m.len() > 4).unwrap_or(true);
+                if is_snapshot || is_nonempty_wal {
+                    anyhow::bail!(
+                        "data directory {} contains {} but no MANIFEST; refusing to start a fresh \
+                         store over existing data",
+                        data_dir.display(),
+                        name
+                    );
+                }
+            }
+        }
+
         let mut index = HnswVectorIndex::new_with_params(
             dimension,
             max_elements,
